@@ -222,7 +222,12 @@ class World:
                     self.strong[op[1]] = None
                 elif k == "commit":
                     try:
-                        o.commit()
+                        # every other commit enters through a contained element (commits the document of the stored object)
+                        child = o.get_referable("v")
+                        if (child.value or 0) % 2 == 1:
+                            child.commit()
+                        else:
+                            o.commit()
                     finally:
                         self._sync_order(o.id)
                 else:
@@ -236,7 +241,11 @@ class World:
                 s = self.store(op[1])
                 try:
                     if k == "add":
-                        s.add(o)
+                        # every other add is a bulk insertion fed from a one-shot generator (AbstractObjectStore.update)
+                        if (o.get_referable("v").value or 0) % 2 == 1:
+                            s.update(x for x in [o])
+                        else:
+                            s.add(o)
                     elif k == "discard":
                         s.discard(o)
                     else:
